@@ -20,6 +20,7 @@ import (
 	"os"
 	"path/filepath"
 	"runtime/debug"
+	"sort"
 	"time"
 
 	webp "github.com/deepteams/webp"
@@ -588,6 +589,32 @@ func main() {
 		// the model's refuted witness and its neighbours run first
 		fixed := [][]byte{witness, []byte("RIFF\x03\x00\x00\x00WEBPVP8X"), []byte("RIFF\x00\x00\x00\x00WEBPVP8L\x00\x00\x00\x00"),
 			[]byte("RIFF\x04\x00\x00\x00WEBP"), []byte("RIFF\x04\x00\x00\x00WEBPVP8 \x00\x00\x00\x00"), {}, []byte("RIFF")}
+		// valid foreign VP8L files (written by the extracted Coq emitter from well-formed plans, not by
+		// this package's encoder: > 256 prefix-code groups, all 120 plane codes, widths 1..3 with the
+		// distance clamp, cache bits 11, tile bits 9, ...), verbatim through every entry point under the
+		// same caps; see corpus/c05/vp8l-foreign/README
+		vdir := os.Getenv("VERIF_DIR")
+		if vdir == "" {
+			vdir = "/verif"
+		}
+		foreign, _ := filepath.Glob(filepath.Join(vdir, "corpus", "c05", "vp8l-foreign", "*.webp"))
+		sort.Strings(foreign)
+		if !c.Thorough() && len(foreign) > 120 {
+			// the covering plans come first; then every third file
+			keep := foreign[:17]
+			for i := 17; i < len(foreign); i += 3 {
+				keep = append(keep, foreign[i])
+			}
+			foreign = keep
+		}
+		for _, f := range foreign {
+			b, err := os.ReadFile(f)
+			if err != nil {
+				continue
+			}
+			evalInput(c, "foreign-vp8l", b)
+		}
+		c.Count(fmt.Sprintf("foreign-vp8l-files=%d", len(foreign)))
 		for i := 0; i < total; i++ {
 			var kind string
 			var b []byte
